@@ -1,5 +1,6 @@
 import Mkdb.Proofs.Page
 import Mkdb.Proofs.EngineNodes3
+import Mkdb.Proofs.Counters7
 /-!
 # C12 — a page written to disk reads back as the same page
 
@@ -238,5 +239,40 @@ example : HeapInv s0 (emptyTree 4096) ∧ FieldsOK (2 ^ 64) (2 ^ 64) (2 ^ 32) (e
     RunOKF (emptyTree 4096, s0.hdr.nextFree) opsF0 ∧ (∀ op ∈ opsF0, FROpInRange op) ∧
     (runF (emptyTree 4096, s0.hdr.nextFree) opsF0).2 ≤ 2 ^ 64 :=
   ⟨s0_heapInv, emptyTree_fields _ _ _ 4096 (by decide) (by decide), by decide, by decide, by decide⟩
+
+end Mkdb.Page
+
+/-! ## the range hypotheses discharged by the length of the history (W16) -/
+
+namespace Mkdb.Page
+open Mkdb.Bin Mkdb.Generated
+
+open Mkdb.Tree in
+/-- **C12.engine_nodes_roundtrip_below_the_wrap**: `C12_every_engine_node_roundtrips` with its range
+hypotheses (`OpInRange` for every operation, final allocation frontier `≤ 2^64`) replaced by the length of
+the history.  The operations are stamped by counters (`Issued k l ops`: the `i`-th operation carries a row id
+at most `k + i + 1` and an LSN below `l + 2 i + 2` - what `lastKey + 1` / `nextLSN` of the engine give when
+the table was created at counters `k`, `l` and every operation consumes at most one row id and two LSNs; an
+updated value passed `updateCell`'s size check).  If these counters do not wrap within the history
+(`k + n < 2^32`, `l + 2 n ≤ 2^64`) and `nf + 34 pages × n ≤ 2^64` for the `n` operations, every page of the
+resulting tree is well formed for the codec and round-trips.  The frontier needs no hypothesis of its own: a
+history of `n < 2^32` operations builds a tree of at most 32 internal levels (`tree_depth_pow`: a well-formed
+tree with `d` internal levels has at least `2^d` leaves), so each insert allocates at most 34 pages
+(`runOps_frontier`).  For `n ≤ 10^9` operations on a table created right after CREATE DATABASE (`k = l = 10`,
+`nf = 16384`) the three conditions hold with room to spare. -/
+theorem C12_engine_nodes_roundtrip_below_the_wrap (off nf k l : Nat) (h : off < nf) (ops : List TOp)
+    (hi : Issued k l ops) (hk : k + ops.length < 2 ^ 32) (hl : l + 2 * ops.length ≤ 2 ^ 64)
+    (hf : nf + 139264 * ops.length ≤ 2 ^ 64) :
+    ∀ e ∈ flatten (runOps (emptyTree off, nf) ops).1, WF e.2.1 ∧
+      ∃ page, encode e.2.1 = .ok page ∧ page.length = c_pageSize ∧ ∃ offs, decodePage page = .ok e.2.1 offs :=
+  fun e he => ⟨runOps_wf_issued off nf k l h ops hi hk hl hf e he,
+    C12_roundtrip e.2.1 (runOps_wf_issued off nf k l h ops hi hk hl hf e he)⟩
+
+set_option maxRecDepth 8000 in
+open Mkdb.Tree in
+/-- non-vacuity: the history `opsC12` (20 inserts with row ids 1 … 20 and LSNs 1001 … 1020, an update at LSN
+2000, a deletion at LSN 2001) is issued by counters starting at row id 0 and LSN 2000 -/
+example : Issued 0 2000 opsC12 ∧ 0 + opsC12.length < 2 ^ 32 ∧ 2000 + 2 * opsC12.length ≤ 2 ^ 64 ∧
+    8192 + 139264 * opsC12.length ≤ 2 ^ 64 := by decide
 
 end Mkdb.Page
